@@ -394,3 +394,106 @@ pub proof fn lemma_cfb_buf_prefix(e: spec_fn(Blk) -> Blk, ks: Seq<u8>, reg: Seq<
         }
     }
 }
+
+// ---------- C01 for ciphertext stealing: decryption inverts encryption ----------
+// The ciphertext is given by its (unique) cut into full blocks `cps` and tail `ct`.
+pub proof fn lemma_xor_zero_pad(t: Seq<u8>, c: Seq<u8>, b: nat)
+    requires c.len() == b, t.len() <= b
+    ensures
+        xor_seq(pad0(t, b), c).skip(t.len() as int) == c.skip(t.len() as int),       // 0 ^ c = c on the padding
+        xor_seq(xor_seq(pad0(t, b), c), c).take(t.len() as int) == t,                  // (t ^ c) ^ c = t
+{
+    let d = t.len() as int;
+    let z = xor_seq(pad0(t, b), c);
+    assert forall |i: int| d <= i < b implies z[i] == c[i] by {
+        let y = c[i];
+        assert(0u8 ^ y == y) by (bit_vector);
+    }
+    assert(z.skip(d) =~= c.skip(d));
+    assert forall |i: int| 0 <= i < d implies xor_seq(z, c)[i] == t[i] by {
+        let x = t[i]; let y = c[i];
+        assert((x ^ y) ^ y == x) by (bit_vector);
+    }
+    assert(xor_seq(z, c).take(d) =~= t);
+}
+
+pub proof fn lemma_cbc_cs_tail_inverts(e: spec_fn(Blk) -> Blk, d: spec_fn(Blk) -> Blk, b: nat, prev: Blk, c_pen: Blk, p_pen: Blk, t: Seq<u8>)
+    requires
+        inverse_of(d, e), len_preserving(e), len_preserving(d),
+        prev.len() == b, c_pen.len() == b, p_pen.len() == b, 1 <= t.len() <= b,
+        c_pen == e(xor_seq(p_pen, prev)),
+    ensures ({
+        let c_last = e(xor_seq(pad0(t, b), c_pen));
+        cbc_cs_dec_tail(d, prev, c_pen.take(t.len() as int), c_last) == p_pen + t
+    })
+{
+    let dl = t.len() as int;
+    let c_last = e(xor_seq(pad0(t, b), c_pen));
+    let z = d(c_last);
+    assert(z == xor_seq(pad0(t, b), c_pen));
+    lemma_xor_zero_pad(t, c_pen, b);
+    let rebuilt = c_pen.take(dl) + z.skip(dl);
+    assert(rebuilt =~= c_pen);
+    xor_cancel(p_pen, prev);
+    assert(xor_seq(d(c_pen), prev) == p_pen);
+    assert(xor_seq(z, c_pen).take(dl) == t);
+}
+
+pub proof fn lemma_ecb_cs_tail_inverts(e: spec_fn(Blk) -> Blk, d: spec_fn(Blk) -> Blk, b: nat, c_pen: Blk, p_pen: Blk, t: Seq<u8>)
+    requires
+        inverse_of(d, e), len_preserving(e), len_preserving(d),
+        c_pen.len() == b, p_pen.len() == b, 1 <= t.len() <= b,
+        c_pen == e(p_pen),
+    ensures ({
+        let c_last = e(t + c_pen.skip(t.len() as int));
+        ecb_cs_dec_tail(d, c_pen.take(t.len() as int), c_last) == p_pen + t
+    })
+{
+    let dl = t.len() as int;
+    let x = t + c_pen.skip(dl);
+    let c_last = e(x);
+    let z = d(c_last);
+    assert(z == x);
+    assert(c_pen.take(dl) + z.skip(dl) =~= c_pen);
+    assert(z.take(dl) =~= t);
+}
+
+// ---------- C09 for CTR: the exported counter block, used as IV of a fresh instance, continues the keystream ----------
+pub proof fn lemma_ctr_layout_resume(iv: Seq<u8>, i: int, j: int, wb: nat, be: bool)
+    requires iv.len() >= wb, wb >= 1, i >= 0, j >= 0
+    ensures ctr_layout(ctr_layout(iv, i, wb, be), j, wb, be) == ctr_layout(iv, i + j, wb, be)
+{
+    let m = pow256(wb);
+    pow256_pos(wb);
+    let k = iv.len() - wb;
+    if be {
+        let f = be_val(iv.skip(k));
+        let v1 = (f + i) % m;
+        let l1 = ctr_layout(iv, i, wb, true);
+        be_bytes_len(v1, wb);
+        assert(l1.len() == iv.len());
+        assert(l1.take(k) =~= iv.take(k));
+        assert(l1.skip(k) =~= be_bytes(v1, wb));
+        vstd::arithmetic::div_mod::lemma_mod_bound(f + i, m);
+        be_val_of_bytes(v1, wb);
+        vstd::arithmetic::div_mod::lemma_add_mod_noop(f + i, j, m);
+        vstd::arithmetic::div_mod::lemma_small_mod((j % m) as nat, m as nat);
+        vstd::arithmetic::div_mod::lemma_add_mod_noop(v1, j, m);
+        vstd::arithmetic::div_mod::lemma_mod_twice(f + i, m);
+        assert((v1 + j) % m == (f + i + j) % m);
+    } else {
+        let f = le_val(iv.take(wb as int));
+        let v1 = (f + i) % m;
+        let l1 = ctr_layout(iv, i, wb, false);
+        le_bytes_len(v1, wb);
+        assert(l1.len() == iv.len());
+        assert(l1.skip(wb as int) =~= iv.skip(wb as int));
+        assert(l1.take(wb as int) =~= le_bytes(v1, wb));
+        vstd::arithmetic::div_mod::lemma_mod_bound(f + i, m);
+        le_val_of_bytes(v1, wb);
+        vstd::arithmetic::div_mod::lemma_add_mod_noop(f + i, j, m);
+        vstd::arithmetic::div_mod::lemma_add_mod_noop(v1, j, m);
+        vstd::arithmetic::div_mod::lemma_mod_twice(f + i, m);
+        assert((v1 + j) % m == (f + i + j) % m);
+    }
+}
